@@ -68,6 +68,14 @@ def rule_flatten(ctx):
             rec.append(p)
         elif v != SELF:
             ctx.undecide('R1', 'flatten: unrecognised result %s' % T.show(v)[:100])
+    if base and not rec:
+        # not the form this rule reads (regroup when the dimensions already sit together at the insertion point, else transpose and call flatten again): a single pass.
+        # Which order the values are regrouped in, which labels the grouped axis carries and where it is inserted are read off the interpreted scenarios of flatten
+        # (1-d to 3-d arrays, every subset of the dimensions in every order, with and without insert=, positions and names)
+        from ..scenario_rule import rule_scenarios
+        for rid, what in (('R1', 'order coherence'), ('R2', 'splice coherence'), ('R3', 'recursion progress')):
+            rule_scenarios(ctx, rid, only=RS + 'flatten', title=what + ' (flatten in a single pass: interpreted scenarios)')
+        return
     if not base:
         ctx.violated('R1', fi, 'base case', 'flatten never regroups the values')
 
@@ -412,8 +420,10 @@ def rule_reshape(ctx):
         if el is not None and el[0] != 'elem':
             el = None
         if not (el is not None and a[2][0] == ('call', ('attr', el, 'split'), (const(','),), ()) and T.kw(a, 'insert') == ('idx', el[1], el[2])):
-            ctx.violated('R4', fi, e.node, "a comma-joined name groups its members at its own index: o.flatten(d.split(','), insert=i)", node=e.node)
-            ok = False
+            # members and position come from somewhere else (recorded in an earlier pass, ...): where each group lands is read off the interpreted scenarios of reshape
+            from ..scenario_rule import rule_scenarios
+            rule_scenarios(ctx, 'R4', only=RS + 'reshape', title="reshape pipeline: a comma-joined name groups its members at its own index (interpreted scenarios)")
+            break
     if ok:
         ctx.holds('R4', 'reshape: squeeze(dim) / newaxis(dim, pos=i) / flatten(group, insert=i) per dimension')
     # renames only on private copies
